@@ -70,7 +70,7 @@ def _r1(chk, repo):
     for cls, meth, flag, ops, plain in specs:
         ci = repo.cls(f"{SOLVER}:{cls}")
         fn_src = repo.method(ci, meth)[1]
-        fn = canon_fn(repo, ci, fn_src, 2)        # helpers that wrap the matrix/function dispatch are inlined at their call sites
+        fn = canon_fn(repo, ci, fn_src, 3)        # helpers that wrap the matrix/function dispatch are inlined at their call sites; local aliases of self.A / self.explicitA substituted
         for node in ast.walk(fn):
             if isinstance(node, ast.If) and _norm(node.test) == flag:
                 n += 1
@@ -150,7 +150,13 @@ def _r1(chk, repo):
     msgs = ["start from a copy of x0", "residual r = b - A x", "normal residual s = A'r - shift*x", "first direction p = s", "q = A p",
             "delta = |q|^2 + shift |p|^2", "step length gamma/delta", "x += alpha p", "r -= alpha q", "old gamma kept", "norm of s", "gamma = |s|^2",
             "p = s + (gamma/gamma_old) p", "relative normal-residual stopping rule", "returns (x, iterations)"]
+    from .common import stmts as _stmts_all
+    S = _stmts_all(repo, repo.cls(f"{SOLVER}:CGLS"), cg_src) + S          # all views (aliases of self.A / self.shift / self.tol substituted)
     b, fail = unify(pats, S)
+    if b is None:      # the stopping rule as the test of a `break` instead of a flag variable
+        b2, fail2 = unify(pats[:13] + ["if: $ns<=$ns0*self.tol or $nx*self.tol>=1", pats[14]], S)
+        if b2 is not None:
+            b = b2
     chk.add("C16-R1", f"{SOLVER}:CGLS.solve/recurrences", b is not None, site(repo, cg), "Hestenes-Stiefel recurrences with shift and relative normal-residual stopping rule",
             f"CGLS recurrence changed: {msgs[fail] if b is None else ''} (`{pats[fail] if b is None else ''}` has no consistent match)", cg)
 
